@@ -5,10 +5,14 @@ package main
 // byte-scan oracle over the store directory, every export and the log output.
 
 import (
+	"context"
+
 	"bytes"
 	"encoding/hex"
 	"encoding/json"
 	"fmt"
+	"massnet.org/mass/api"
+	pb "massnet.org/mass/api/proto"
 	"os"
 	"path/filepath"
 	"strconv"
@@ -458,6 +462,9 @@ func runSecrecy(e *env) {
 			}
 			e.scanAll(logDir)
 		}
+		// the same wallet behind the API handlers (api/wallets.go): requests that succeed and requests that fail at
+		// every stage carry passphrases - none of them may reach the log
+		e.apiLayer(priv, logDir)
 		// force the store's log into table files and scan again
 		e.closeStore()
 		e.scanAll(logDir)
@@ -465,6 +472,54 @@ func runSecrecy(e *env) {
 			h.Sample("secrecy history: " + strings.Join(hist, " ; "))
 		}
 	}
+}
+
+// apiLayer drives the wallet handlers of the gRPC API on the harness's keystore manager.
+func (e *env) apiLayer(priv int, logDir string) {
+	if e.kmc == nil {
+		return
+	}
+	srv := api.VerifNewSpacesServer(nil, e.kmc, nil)
+	ctx := context.Background()
+	dir := filepath.Join(e.root, "apiexp")
+	os.MkdirAll(dir, 0o755)
+	pass, other := e.passes[priv], e.passes[1+(priv%2)]
+	e.h.Res.Extra["api_requests"] = toInt(e.h.Res.Extra["api_requests"])
+	count := func() { e.h.Res.Extra["api_requests"] = toInt(e.h.Res.Extra["api_requests"]) + 1 }
+	bad := filepath.Join(dir, "bad.json")
+	os.WriteFile(bad, []byte("{not json"), 0o644)
+	for _, name := range e.kmc.ListKeystoreNames() {
+		srv.ExportKeystore(ctx, &pb.ExportKeystoreRequest{WalletId: name, Passphrase: other, ExportPath: dir}) // refused
+		count()
+		if _, err := srv.ExportKeystore(ctx, &pb.ExportKeystoreRequest{WalletId: name, Passphrase: pass, ExportPath: dir}); err == nil {
+			file := filepath.Join(dir, "keystore-"+name+".json")
+			if _, err := os.Stat(file); err != nil {
+				ms, _ := filepath.Glob(filepath.Join(dir, "*"+name+"*.json"))
+				if len(ms) > 0 {
+					file = ms[0]
+				}
+			}
+			if b, err := os.ReadFile(file); err == nil {
+				e.scan("api-export:"+filepath.Base(file), b)
+			}
+			// right passphrase, the keystore is already there / a second passphrase / the wrong one
+			srv.ImportKeystore(ctx, &pb.ImportKeystoreRequest{ImportPath: file, OldPassphrase: pass})
+			srv.ImportKeystore(ctx, &pb.ImportKeystoreRequest{ImportPath: file, OldPassphrase: pass, NewPassphrase: other})
+			srv.ImportKeystore(ctx, &pb.ImportKeystoreRequest{ImportPath: file, OldPassphrase: other})
+			count()
+		}
+		count()
+	}
+	srv.ImportKeystore(ctx, &pb.ImportKeystoreRequest{ImportPath: bad, OldPassphrase: pass})
+	srv.ImportKeystore(ctx, &pb.ImportKeystoreRequest{ImportPath: filepath.Join(dir, "absent.json"), OldPassphrase: pass, NewPassphrase: other})
+	srv.ImportKeystore(ctx, &pb.ImportKeystoreRequest{ImportPath: bad, OldPassphrase: "short"})
+	e.kmc.Lock()
+	srv.UnlockWallet(ctx, &pb.UnlockWalletRequest{Passphrase: other})
+	srv.UnlockWallet(ctx, &pb.UnlockWalletRequest{Passphrase: pass})
+	srv.UnlockWallet(ctx, &pb.UnlockWalletRequest{Passphrase: pass})
+	e.kmc.Lock()
+	count()
+	e.scanAll(logDir)
 }
 
 func (e *env) failAlways(prop, key, format string, a ...interface{}) {
